@@ -20,6 +20,7 @@
 //! [`Space`] = all programs of a shape whose letter weights sum to at most `max_weight`
 //! (`max_weight >= 2n` is the full product space), with an index <-> program bijection.
 
+#![allow(dead_code)]
 use props::ccl::intermediate_representation::*;
 use props::irb::*;
 use serde::{Deserialize, Serialize};
